@@ -123,11 +123,14 @@ struct World {
     bank_on: bool,
     next_seq_in: u64,
     migrated_from: Option<&'static str>,
+    /// a legal native denom (token-factory style) that merely CONTAINS the text "cw20:<addr>"
+    odd_denom: String,
 }
 
 impl World {
     fn tokens(&self) -> Vec<Token> {
         let mut v: Vec<Token> = NATIVE.iter().map(|d| Token::Native(d.to_string())).collect();
+        v.push(Token::Native(self.odd_denom.clone()));
         v.extend(self.cw20s.iter().map(|a| Token::Cw20(a.to_string())));
         v
     }
@@ -227,10 +230,12 @@ impl Ics {
         let users: Vec<String> = pl.actors[..3].to_vec();
         let bals: Vec<(String, u128)> = users.iter().map(|u| (u.clone(), 1u128 << 80)).collect();
         let cw20s = vec![c.new_cw20(false, &bals, None), c.new_cw20(true, &bals, None), c.new_cw20(false, &bals, None)];
+        let odd_denom = format!("factory/{}/cw20:{}", &users[0][..20], cw20s[0]);
         for u in &users {
             for d in NATIVE {
                 c.fund(u, 1u128 << 80, d);
             }
+            c.fund(u, 1u128 << 80, &odd_denom);
         }
         let gov = mk_addr("gov");
         let default_gas = match h.rng.below(3) {
@@ -305,6 +310,7 @@ impl Ics {
             bank_on: false,
             next_seq_in: 1,
             migrated_from: None,
+            odd_denom,
         })
     }
 
@@ -346,7 +352,10 @@ impl Ics {
             k = 3;
         }
         match k {
-            0 => (user, Op::TransferNative { channel: chan(rng), denom: rng.pick(&NATIVE).to_string(), amount: amt(rng), extra_coin: rng.chance(1, 15), timeout: tmo(rng), memo: memo(rng) }),
+            0 => {
+                let denom = if rng.chance(1, 5) { w.odd_denom.clone() } else { rng.pick(&NATIVE).to_string() };
+                (user, Op::TransferNative { channel: chan(rng), denom, amount: amt(rng), extra_coin: rng.chance(1, 15), timeout: tmo(rng), memo: memo(rng) })
+            }
             1 => (user, Op::TransferCw20 { token: rng.below_usize(3), channel: chan(rng), amount: amt(rng), timeout: tmo(rng), memo: memo(rng) }),
             2 => (user, Op::DirectReceive { channel: chan(rng), amount: 1 + rng.below(1000) as u128 }),
             3 => {
